@@ -508,7 +508,7 @@ func c15Case(c *Ctx) {
 				add("refused-attach-left-lock", "_lock left behind by the refused incarnation")
 			}
 		} else {
-			if r.Class() != "complete" {
+			if r.Class() != "complete" && r.Class() != "step-budget" {
 				oracle := "cosmetic-edit-refused"
 				if ed.name == "cosmetic:rename-file-type" && hasFileCollectionParam(prog) {
 					oracle = "file-type-rename-refused-for-collection-of-files"
